@@ -148,6 +148,7 @@ PROPS = {
                 T("C17c", "C17F_rowSum", "C17F_stop_certificate", "C17F_stop_accuracy", "C17F_step_ok") +
                 T("C17d", "C17F_step_bounds", "C17F_total", "C17F_le_four", "C17F_arcless", "C17F_regular") +
                 T("C17e", "C17F_randomStarts_in01", "C17F_seeded") +
+                T("C17f", "C17F_result_settled", "C17F_result_accuracy") +
                 T("FloatSpec", "roundPos_spec", "roundDouble_isB64", "roundDouble_nearest", "roundDouble_none_iff", "roundDouble_of_isB64"),
                 not_proved=["that the stopping rule fires within the iteration budget with a smallest entry delta large enough for 1e-4 "
                             "under the spectral-gap precondition (needs Perron-Frobenius convergence RATES): TESTED against the "
